@@ -5,7 +5,7 @@ import vp
 LEVEL = "model_checking"
 SPECDIRS = ("c14",)
 PKG = ["GroupByInterval", "RewriteRegexConditions", "RewriteDistinct", "RewriteTimeFields", "SetTimeRange"]  # pre-steps of the heap model
-INV = "InvFaithful InvDisjoint InvOther InvReceiver"
+INVS = "InvFaithfulStrict InvDisjoint InvOther InvReceiver"
 
 
 def tla_set(xs):
@@ -69,27 +69,28 @@ def run(ctx):
         "mutable-node identities are Go addresses of pointer-to-struct nodes and slice element slots, collected by reflection"]
 
     # ------------------------------------------------------------------ pass M
-    # the design as written today loses IsTarget: TLC must find exactly that ...
-    heap(ctx, "strict", heap_cfg(0, [], False, True, False, "InvReport InvFaithfulStrict"),
-         expect_violation=("InvFaithfulStrict", "Target.Measurement.IsTarget"))
-    # ... and nothing else, over all histories inside the bounds
+    # The design spec is Clone as written since c7f96a4 (IsTarget copied: DevIsTarget = FALSE); the former deviation
+    # Dev_CloneDropsIsTarget stays in CloneProps/Heap as a named shape so that a regression is reported under its name.
     if q:
-        r = heap(ctx, "dev", heap_cfg(2, ["GroupByInterval", "RewriteTimeFields"], False, True, False, INV))
-        ctx.note("pass M: %d heap states, histories <pre?, clone, any step, in-place|derived step> satisfy the claims "
-                 "(Faithful up to Dev_CloneDropsIsTarget)" % r.distinct)
+        r = heap(ctx, "design", heap_cfg(2, ["GroupByInterval", "RewriteTimeFields"], False, False, False, INVS))
+        ctx.note("pass M: %d heap states, histories <pre?, clone, any step, in-place|derived step> satisfy Faithful, Disjoint, "
+                 "OtherUnchanged, ReceiverUnchanged" % r.distinct)
     else:
-        r1 = heap(ctx, "dev_pre", heap_cfg(2, PKG, False, True, False, INV))
-        r2 = heap(ctx, "dev_mm", heap_cfg(2, [], True, True, False, INV))
-        r3 = heap(ctx, "dev_3", heap_cfg(3, [], False, True, False, INV))
+        r1 = heap(ctx, "design_pre", heap_cfg(2, PKG, False, False, False, INVS))
+        r2 = heap(ctx, "design_mm", heap_cfg(2, [], True, False, False, INVS))
+        r3 = heap(ctx, "design_3", heap_cfg(3, [], False, False, False, INVS))
         ctx.note("pass M: %d + %d + %d heap states (pre-steps x 2 steps; 2 arbitrary steps incl. mutate-mutate; 3 steps) satisfy "
-                 "the claims (Faithful up to Dev_CloneDropsIsTarget)" % (r1.distinct, r2.distinct, r3.distinct))
-        # the INTO path of Clone does not copy SystemIterator either; the parser never sets it (outside the quantifier)
+                 "Faithful, Disjoint, OtherUnchanged, ReceiverUnchanged" % (r1.distinct, r2.distinct, r3.distinct))
+        # the design before c7f96a4 is still recognised by TLC as violating Faithful exactly at IsTarget
+        heap(ctx, "before_fix", heap_cfg(0, [], False, True, False, "InvReport InvFaithfulStrict"),
+             expect_violation=("InvFaithfulStrict", "Target.Measurement.IsTarget"))
+        # the INTO path of Clone does not copy SystemIterator; the parser never sets it (outside the quantifier)
         heap(ctx, "sysiter", heap_cfg(0, [], False, False, True, "InvReport InvFaithfulStrict"),
              expect_violation=("InvFaithfulStrict", "Target.Measurement.SystemIterator"))
-        ctx.note("pass M: with IsTarget repaired, an INTO measurement carrying a SystemIterator (never produced by the parser) "
-                 "would still lose it in Clone - reported, not judged (outside the property's quantifier)")
-    # the repaired design (the planned one-line fix) satisfies Faithful strictly; every model mutation is visible
-    heap(ctx, "fixed", heap_cfg(1, [], False, False, False, "InvFaithfulStrict InvDisjoint InvOther InvReceiver InvMutateVisible"))
+        ctx.note("pass M: an INTO measurement carrying a SystemIterator (never produced by the parser) would lose it in Clone - "
+                 "reported, not judged (outside the property's quantifier)")
+    # model sanity: every Mutate step of the model is visible in the snapshot of the side it is applied to
+    heap(ctx, "sanity", heap_cfg(1, [], False, False, False, INVS + " InvMutateVisible"))
 
     # ------------------------------------------------------------------ pass G: table, probe
     nextra = 6 if q else 130
@@ -115,7 +116,7 @@ def run(ctx):
         names.update(r["obs"].get("names", []))
     ctx.note("inputs: %d statements + %d expressions accepted (%d combined texts rejected by the parser), %d mutation paths "
              "(%d distinct field paths), %d mutable nodes" % (nst, nex, len(bad), npaths, len(names), sum(int(r["obs"]["nodes"]) for r in ok)))
-    if nst < (40 if q else 150) or nex < 20:
+    if nst < (55 if q else 180) or nex < 70:
         raise vp.Broken("too few accepted inputs: %d statements, %d expressions" % (nst, nex))
     ctx.coverage_extra.update(statements=nst, expressions=nex, mutation_paths=npaths, distinct_field_paths=len(names))
 
@@ -152,13 +153,18 @@ def run(ctx):
     ctx.note("steps judged: %d (%d visibly changed their own side, %d derived operations completed, %d steps panicked, "
              "%d skipped)" % (tot("steps"), tot("effective_steps"), tot("derived_steps"), tot("step_panics"), tot("skipped_steps")))
 
-    # ------------------------------------------------------------------ M <-> code
-    dev = sum(1 for v in ctx.verdicts if v.get("class") == "Dev_CloneDropsIsTarget")
-    if dev:
-        ctx.note("pass M counterexample (Clone drops Target.Measurement.IsTarget) reproduced on the real code in %d histories" % dev)
-    else:
-        ctx.note("the deviation Dev_CloneDropsIsTarget of the design spec is not observed on this tree: the code agrees with the "
-                 "repaired design (DevIsTarget = FALSE), which pass M verifies without deviation")
+    # ------------------------------------------------------------------ vacuity per derived operation
+    # every read-only operation must have met inputs on which it had something to do (its result differed from its
+    # input: folding, expansion, a time range ...): there an in-place implementation would show in the receiver
+    for kind, ops in (("stmt", ["Reduce", "ReduceNil", "ReduceZone", "RewriteFields", "EvalCond", "EvalType", "String", "ColumnNames",
+                                "RequiredPrivileges", "Names", "ConditionExpr"]),
+                      ("expr", ["Reduce", "ReduceNil", "ReduceZone", "Eval", "EvalType", "String", "Names", "ConditionExpr"])):
+        for op in ops:
+            n = ctx.coverage_extra.get("ops.act_%s_%s" % (kind, op), 0)
+            if n < 10:
+                raise vp.Broken("vacuous: derived operation %s on %s inputs was active on %d inputs only" % (op, kind, n))
+    if any(v.get("class") == "Dev_CloneDropsIsTarget" for v in ctx.verdicts):
+        ctx.note("regression: Clone drops Target.Measurement.IsTarget again (the shape fixed in c7f96a4)")
     ctx.coverage_extra["exhaustive_parts"] = [p[0] for p in parts if not p[2]]
     ctx.coverage_extra["sampled_parts"] = [p[0] for p in parts if p[2]]
     return vp.case_finder
